@@ -12,10 +12,10 @@ dest=$(head -1 $D/demo_test.go | sed 's/.*copy to: *//; s/ *$//')
 cd $WT || exit 2
 git checkout -q -- . 2>/dev/null; find . -name zz_verif_contracts.go -delete
 cp $D/demo_test.go $WT/$dest/zz_demo_test.go
-clean=$(go test -vet=off -count=1 -run . ./$dest 2>&1 | tail -3); echo "CLEAN: $(echo "$clean" | tail -1)"
+clean=$(go test -short -vet=off -count=1 -run . ./$dest 2>&1 | tail -3); echo "CLEAN: $(echo "$clean" | tail -1)"
 git apply $D/patch.diff || { echo "patch does not apply"; rm -f $WT/$dest/zz_demo_test.go; exit 2; }
 go build ./... || { echo "does not build"; }
-mut=$(go test -vet=off -count=1 ./$dest 2>&1 | tail -3); echo "MUTANT(with demo): $(echo "$mut" | tail -1)"
+mut=$(go test -short -vet=off -count=1 ./$dest 2>&1 | tail -3); echo "MUTANT(with demo): $(echo "$mut" | tail -1)"
 rm -f $WT/$dest/zz_demo_test.go
 pk=$(git diff --name-only | grep '\.go$' | grep -v zz_verif_contracts | xargs -n1 dirname | sort -u | sed 's|^|./|' | tr '\n' ' ')
 ex=$(go test -short -vet=off -count=1 $pk 2>&1 | tail -3); echo "EXISTING TESTS ($pk): $(echo "$ex" | tail -1)"
